@@ -139,7 +139,9 @@ def run_mc(n, f, k, sp, gd, enc=None):
     import numpy as np
     from chmpy.mc import marching_cubes
     enc = enc or {}
-    base = int(enc.get("base", 0))
+    base = enc.get("base", 0)
+    if enc.get("zero_level"):
+        base = -(k + 0.5)                                   # a signed field whose surface is the level 0 exactly
     vol = (np.array(f, dtype=np.int64).reshape(n) + base).astype(getattr(np, enc.get("dtype", "float32")))
     level = None if enc.get("none") else k + 0.5 + base
     r = {"exc": "", "offgrid": False, "nv": 0, "nf": 0, "V": [], "F": []}
@@ -380,13 +382,13 @@ def drive_surface(recipe):
             if api == "surface.promolecule_density_isosurface":
                 from chmpy.surface import promolecule_density_isosurface
                 iso_m = promolecule_density_isosurface(PromoleculeDensity((systems[0][0], systems[0][1])),
-                                                       isovalue=iso, sep=sepf)
+                                                       isovalue=iso, sep=sepf, **recipe.get("kw", {}))
                 meshes = [(iso_m.vertices, iso_m.faces)]
             elif api == "surface.stockholder_weight_isosurface":
                 from chmpy.surface import stockholder_weight_isosurface
                 s0 = systems[0]
                 iso_m = stockholder_weight_isosurface(StockholderWeight.from_arrays(s0[0], s0[1], s0[3], s0[4]),
-                                                      isovalue=iso, sep=sepf)
+                                                      isovalue=iso, sep=sepf, **recipe.get("kw", {}))
                 meshes = [(iso_m.vertices, iso_m.faces)]
             elif api == "Molecule.promolecule_density_isosurface":
                 from chmpy import Molecule
@@ -462,6 +464,8 @@ def cube_recipes(ctx):
                 out.append({"kind": "mc", "gen": "cube", "vals": vals, "k": k,
                             "gd": "descent" if (pat + k) % 2 else "ascent",
                             "sp": [1, 1, 1] if pat % 3 else [rng.randint(1, 4) for _ in range(3)]})
+                if pat % 7 == 3:
+                    out[-1]["enc"] = {"dtype": rng.choice(["float32", "float64"]), "zero_level": True, "none": False}
                 if pat % 5 == 0:
                     # other array types for the same field (image data: uint8 with a background, int16, float64 ...)
                     out[-1]["enc"] = rng.choice([{"dtype": "uint8", "base": rng.choice([0, 100, 126, 127, 200, 252])},
@@ -511,6 +515,12 @@ def surface_recipes(ctx):
                 out.append({"kind": "surface", "api": api, "src": name, "mol": m, "seps": seps, "iso": (0.01, 0.005)[(mi // 2) % 2]})
         out.append({"kind": "surface", "api": "surface.stockholder_weight_isosurface", "src": name + " in a 5x5x5 lattice of copies",
                     "mol": m, "env": dense_environment(m, ctx.seed + 7), "seps": seps})
+        if mi % 3 == 1:
+            # the raw mesh, without the smoothing pass
+            out.append({"kind": "surface", "api": "surface.stockholder_weight_isosurface", "src": name + " in a 5x5x5 lattice of copies",
+                        "mol": m, "env": dense_environment(m, ctx.seed + 7), "seps": seps, "kw": {"smoothing": None}})
+            out.append({"kind": "surface", "api": "surface.promolecule_density_isosurface", "src": name, "mol": m, "seps": seps,
+                        "kw": {"smoothing": None}})
     for api in ("Crystal.hirshfeld_surfaces", "Crystal.promolecule_density_isosurfaces"):
         out.append({"kind": "surface", "api": api, "src": "cif:acetic_acid.cif", "seps": seps})
     out.append({"kind": "surface", "api": "Crystal.promolecule_density_isosurfaces", "src": "cif:acetic_acid.cif", "seps": seps, "iso": 0.008})
